@@ -61,27 +61,11 @@ Section Safe2.
     end.
   Proof.
     intros Hl Hb Hnf Hlt.
-    destruct (N.eq_dec nf 4294967295) as [Emax|Hne].
-    - (* numFrames = 2^32-1 never passes the size / magic checks *)
-      subst nf. unfold ld_header. rewrite Emax.
-      destruct fl.
-      + assert (E1 : w32 (w32 (spe true * 4294967295) + FOOTER + SKIPHDR) = 5) by reflexivity.
-        rewrite E1. assert (E2 : sub32 5 FOOTER = 4294967292) by reflexivity. rewrite E2.
-        replace (N.min 4294967292 BUFF) with BUFF by lia.
-        unfold src_seek_end. destruct (N.ltb_spec (lenN file) 5); [exact I|].
-        unfold src_read. destruct (N.ltb_spec (lenN file) (lenN file - 5 + BUFF)); [exact I|lia].
-      + assert (E1 : w32 (w32 (spe false * 4294967295) + FOOTER + SKIPHDR) = 9) by reflexivity.
-        rewrite E1. assert (E2 : sub32 9 FOOTER = 0) by reflexivity. rewrite E2.
-        replace (N.min 0 BUFF) with 0 by lia.
-        unfold src_seek_end. destruct (N.ltb_spec (lenN file) 9); [exact I|].
-        unfold src_read. destruct (N.ltb_spec (lenN file) (lenN file - 9 + 0)); [exact I|].
-        rewrite sliceN_0.
-        assert (Es : buf_store buf 0 [] = buf).
-        { unfold buf_store. rewrite firstN_0. cbn [app]. apply skipN_0. }
-        rewrite Es, Emax.
-        assert (Em : negb (4294967295 =? SKIPMAGIC) = true) by reflexivity. rewrite Em. exact I.
-    - unfold ld_header.
-      set (frameSize := w32 (w32 (spe fl * nf) + FOOTER + SKIPHDR)).
+    unfold ld_header.
+    destruct (N.ltb_spec MAXFRAMES nf) as [Hbig|Hsmall]; [exact I|].
+    pose proof MAXFRAMES_le as Hmax.
+    assert (Hne : nf <> 4294967295) by lia.
+    { set (frameSize := w32 (w32 (spe fl * nf) + FOOTER + SKIPHDR)).
       set (remaining := sub32 frameSize FOOTER).
       set (toRead := N.min remaining BUFF).
       destruct (src_seek_end file frameSize) as [fp|]; [|exact I].
@@ -95,7 +79,7 @@ Section Safe2.
       destruct (negb (w32 (rd32 (skipN (buf_store buf 0 data) 4) + SKIPHDR) =? frameSize)); [exact I|].
       split; [|cbn [l_idx l_ents]; repeat split; lia].
       constructor; cbn [l_buf l_pos l_cur l_d l_idx l_ents rev asc hd e_d]; try assumption; try reflexivity; try lia;
-        first [exact I | intros a []].
+        first [exact I | intros a []]. }
   Qed.
 
   Lemma asc_nthN l i j : asc l -> i <= j -> j < lenN l -> e_d (nthN l i e0) <= e_d (nthN l j e0).
